@@ -303,30 +303,35 @@ Section Walk2.
   Notation excluded := (excluded cf).
 
   (* ---------------------------------------------------------------- dry run: the file walk writes nothing
-     once copy() no longer raises (F3) and copytree() no longer creates directories (F4) *)
-  Lemma sync_ws_dry_id : fix_F3 cf = true -> fix_F4 cf = true ->
-    forall fuel o deep sdir ddir subdir, o_dry_run o = true ->
-      fst (sync_ws frepr cf fuel o deep sdir ddir subdir) = ddir.
+     once copytree() no longer creates directories (F4) — or when it is never called (not recursive).
+     copy() under dry_run never writes, it only raises (F3). *)
+  Lemma sync_ws_dry_id : forall fuel o deep sdir ddir subdir,
+    o_dry_run o = true -> fix_F4 cf = true \/ o_recursive o = false ->
+    fst (sync_ws frepr cf fuel o deep sdir ddir subdir) = ddir.
   Proof.
-    intros H3 H4. induction fuel as [|fuel IH]; intros o deep sdir ddir subdir Hdry; [reflexivity|].
+    induction fuel as [|fuel IH]; intros o deep sdir ddir subdir Hdry H4; [reflexivity|].
     rewrite sync_ws_S.
+    assert (CF : forall n c d, fst (copy_file cf true n c d) = d)
+      by (intros; unfold copy_file; destruct (fix_F3 cf); reflexivity).
     assert (S1 : forall n d, fst (step1 cf o sdir n d) = d).
     { intros n d. unfold step1. destruct (excluded o n); [reflexivity|].
       destruct (alookup n sdir) as [[c m|es]|]; try reflexivity.
-      - unfold copy_file. rewrite Hdry, H3. reflexivity.
-      - destruct (o_recursive o); [|reflexivity]. unfold copy_tree. rewrite Hdry, H4. reflexivity. }
+      - rewrite Hdry. apply CF.
+      - destruct (o_recursive o) eqn:Er; [|reflexivity].
+        destruct H4 as [H4|H4]; [|discriminate]. unfold copy_tree. rewrite Hdry, H4. reflexivity. }
     assert (S2 : forall n d, fst (step2 cf o sdir subdir n d) = d).
     { intros n d. unfold step2. destruct (excluded o n); [reflexivity|].
       destruct (o_strategy o) as [s|]; [|reflexivity].
       destruct (alookup n sdir) as [[c m|es]|]; try reflexivity.
       destruct (alookup n d) as [[c2 m2|es]|]; try reflexivity.
       destruct (verdict s (join subdir n) m m2); [|reflexivity].
-      unfold copy_file. rewrite Hdry, H3. reflexivity. }
+      rewrite Hdry. apply CF. }
     assert (S3 : forall n d, fst (step3 (sync_ws frepr cf fuel o deep) o sdir subdir n d) = d).
-    { intros n d. unfold step3. destruct (o_recursive o); [|reflexivity].
+    { intros n d. unfold step3. destruct (o_recursive o) eqn:Er; [|reflexivity].
       destruct (alookup n sdir) as [[c m|ses]|]; try reflexivity.
       destruct (alookup n d) as [[c2 m2|des]|] eqn:El; try reflexivity.
-      specialize (IH o deep ses des (join subdir n) Hdry).
+      assert (H4' : fix_F4 cf = true \/ o_recursive o = false) by (destruct H4; [left; assumption|discriminate]).
+      specialize (IH o deep ses des (join subdir n) Hdry H4').
       destruct (sync_ws frepr cf fuel o deep ses des (join subdir n)) as [des' e]. simpl in *. subst des'.
       apply aset_same. assumption. }
     destruct (run_steps (step1 cf o sdir) (of_cls frepr cf deep sdir ddir LeftOnly) ddir) as [d1 e1] eqn:E1.
